@@ -80,6 +80,9 @@ var scrWide = []rune{0x4e16, 0x754c, 0xac00, 0xff21, 0x3042, 0x1f600}
 var scrZero = []rune{0, 7, 8, 0xa, 0xd, 0x1b, 0x7f, 0x85, 0x9b, 0x200b, 0x200d, 0x2060, 0xfeff, 0x202e, 0x2028, 0x301, -1, 0x110000, 0xd800}
 var scrComb = [][]rune{nil, nil, nil, nil, {0x301}, {0x300, 0x302}, {0x20dd}}
 
+// legacyComb: combining lists for the legacy mix - marks no 8-bit set has, and Arabic harakat, which ISO 8859-6 has
+var legacyComb = [][]rune{nil, nil, {0x301}, {0x64e}, {0x651, 0x64e}, {0x300, 0x302}, {0x650}}
+
 // legacyRunes: runes that single-byte and CJK locales do or do not have, line-drawing runes with
 // ACS names, and a few with default fallbacks
 var legacyRunes = []rune{0xe9, 0xdf, 0x3b1, 0x416, 0x5d0, 0x20ac, 0x2500, 0x2502, 0x250c, 0x2510, 0x2514, 0x2518, 0x251c, 0x2524,
@@ -142,7 +145,15 @@ func planScreen(rng *rand.Rand, nops int, w, h int, mix string, rich bool, hasCa
 				y = ch - 1
 			}
 		}
-		return sop{Op: "SetContent", X: x, Y: y, R: pickRune(rng), Comb: scrComb[rng.Intn(len(scrComb))],
+		comb := scrComb[rng.Intn(len(scrComb))]
+		if mix == "legacy" {
+			comb = legacyComb[rng.Intn(len(legacyComb))]
+		}
+		r := pickRune(rng)
+		if mix == "legacy" && len(comb) > 0 && comb[0] >= 0x600 && rng.Intn(2) == 0 {
+			r = []rune{0x643, 0x628, 0x62a}[rng.Intn(3)] // an Arabic letter under the harakat
+		}
+		return sop{Op: "SetContent", X: x, Y: y, R: r, Comb: comb,
 			St: tcx.RandStyle(rng, rich, true)}
 	}
 	var last []sop
@@ -186,7 +197,7 @@ func planScreen(rng *rand.Rand, nops int, w, h int, mix string, rich bool, hasCa
 			case k < 70:
 				add(sop{Op: "SetTitle", S: []string{"t1", "hello world", ""}[rng.Intn(3)]})
 			case k < 80:
-				add(sop{Op: "EnableMouse", N: 1 + rng.Intn(8)})
+				add(sop{Op: "EnableMouse", N: 1 + rng.Intn(8), X: rng.Intn(2)})
 			case k < 83:
 				add(sop{Op: "EnablePaste"})
 			case k < 90 && mix == "modes":
@@ -222,6 +233,18 @@ func planScreen(rng *rand.Rand, nops int, w, h int, mix string, rich bool, hasCa
 			if len(last) > 8 {
 				last = last[1:]
 			}
+		case k < 46 && cw >= 5 && rng.Intn(8) == 0:
+			// bottom line: a wide rune, shown; another wide rune one column to its left (the first stays stored but
+			// hidden); then the corner cell changes - whoever owns column w-2 must be found by walking the line
+			y := ch - 1
+			add(sop{Op: "SetContent", X: cw - 3, Y: y, R: scrWide[rng.Intn(len(scrWide))], St: tcx.RandStyle(rng, rich, true)})
+			add(sop{Op: "Show"})
+			add(sop{Op: "SetContent", X: cw - 4, Y: y, R: scrWide[rng.Intn(len(scrWide))], St: tcx.RandStyle(rng, rich, true)})
+			if rng.Intn(2) == 0 {
+				add(sop{Op: "Show"})
+			}
+			add(sop{Op: "SetContent", X: cw - 1, Y: y, R: []rune{'#', '|', 'x'}[rng.Intn(3)], St: tcx.RandStyle(rng, rich, true)})
+			add(sop{Op: "Show"})
 		case k < 46 && cw >= 2 && rng.Intn(6) == 0:
 			// a wide rune over cells painted before, then the same Fill/Clear again: the column it covered
 			// holds what it held before, and must be shown again
@@ -291,7 +314,7 @@ func planScreen(rng *rand.Rand, nops int, w, h int, mix string, rich bool, hasCa
 				add(sop{Op: "SetCursorStyle", N: rng.Intn(7), B: true})
 				add(sop{Op: "Show"})
 			case 0:
-				add(sop{Op: "EnableMouse", N: rng.Intn(9)})
+				add(sop{Op: "EnableMouse", N: rng.Intn(9), X: rng.Intn(2)})
 			case 1:
 				add(sop{Op: "DisableMouse"})
 			case 2:
@@ -618,6 +641,16 @@ func (r *screenRun) run(ops []sop, w, h int, truecolor bool, altscreen bool) err
 			if o.N >= 8 { // the no-argument form enables everything
 				s.EnableMouse()
 				e["n"] = 7
+			} else if o.N&(o.N-1) != 0 && (o.X+o.Y+o.N)%2 == 0 {
+				// several flags: as separate arguments (the variadic form), which are OR-ed
+				var fl []tcell.MouseFlags
+				for b := 1; b <= 4; b <<= 1 {
+					if o.N&b != 0 {
+						fl = append(fl, tcell.MouseFlags(b))
+					}
+				}
+				s.EnableMouse(fl...)
+				e["n"] = o.N
 			} else {
 				s.EnableMouse(tcell.MouseFlags(o.N))
 				e["n"] = o.N
